@@ -3,6 +3,7 @@ import Refine.Lemmas.ReconParKexact
 import Refine.Lemmas.ReconParCounter
 import Refine.Lemmas.ReconParCells
 import Refine.Lemmas.ReconParSigned
+import Refine.Lemmas.ReconParCloud
 import Refine.Props.C19
 import Refine.Props.C19Kexact
 
@@ -29,7 +30,7 @@ import Refine.Props.C19Kexact
 namespace Refine.Props.C19Par
 open Refine Refine.Model.Geom Refine.Model.Recon Refine.Model.ReconPar Refine.ScalarReal Refine.GeomReal
 open Refine.ReconReal Refine.ReconParGhost Refine.ReconParMesh Refine.ReconParHess Refine.ReconParKexact
-open Refine.ReconParCounter Refine.ReconParCells Refine.ReconParExtrap Refine.ReconParSigned
+open Refine.ReconParCounter Refine.ReconParCells Refine.ReconParExtrap Refine.ReconParSigned Refine.ReconParCloud
 open Refine.Model.Comm (World RefType)
 open Refine.Model.Kexact (Item KSt grow kexactNode kexactWithAux layerLoop)
 
@@ -174,17 +175,34 @@ theorem signed_hessian_interior_partition_independent (twod : Bool) (gxyz : List
   skipped (`REF_NOT_FOUND` → `continue`), so a vertex that needs 3 or more layers may see a smaller stencil on a
   partitioned mesh (its result is then still exact on quadratic fields whenever the solve succeeds:
   `C19Kexact.kexact_quadratic_exact`).
-  PROVED: the step from clouds to results (`kexact_cloud_partition_independent_partial`): if the rank's cloud
-  table agrees with the serial table at the vertex and at every entry of the vertex's one-layer cloud, then the
-  once-grown clouds are equal and, when the first attempt is accepted, so are gradient and Hessian — bit for bit the
-  same stencil in the same (global-id) order, so this part holds in floating point as well; for clouds that hold the
-  same points under different ids, `C19Kexact.kexact_perm` / `lsq_row_order_independent` give equality of the
-  results in exact arithmetic.
-  MISSING: that `ghostCloud` (the `alltoall` / `alltoallv` sequence, modelled literally) delivers to every ghost vertex
-  exactly its owner's cloud, and that the owner's local cloud of an owned vertex is the serial cloud (sorted-insert
-  bookkeeping of `ref_cloud_store` over the stored cells).  Both are tied: op `cloud1` of stream `reconpar` prints the
-  one-layer cloud of every stored vertex of every rank from the real code, compared with the model bit for bit and by
-  the Python oracle with the vertices sharing a cell with it in the global mesh. -/
+  PROVED: (a) the owner's cloud (`kexact_one_layer_owned_eq_serial`): with every tet / triangle around an owned
+  vertex stored on the rank, `ref_recon_local_immediate_cloud` on the local mesh, keyed by global id, gives literally
+  the list the serial code builds on the global mesh — `ref_cloud_store` keeps the cloud strictly sorted by global id
+  and an entry's payload is a function of its id, so the cloud is determined by the SET of vertices sharing a cell with
+  the vertex, whatever the cell order, the local numbering and the multiplicity of the stores; (b) the step from
+  clouds to results (`kexact_cloud_partition_independent_partial`): if the rank's cloud table agrees with the serial
+  table at the vertex and at every entry of the vertex's one-layer cloud, then the once-grown clouds are equal and,
+  when the first attempt is accepted, so are gradient and Hessian — bit for bit the same stencil in the same
+  (global-id) order, so this part holds in floating point as well; for clouds that hold the same points under
+  different ids, `C19Kexact.kexact_perm` / `lsq_row_order_independent` give equality of the results in exact arithmetic.
+  MISSING: that `ghostCloud` (the `alltoall` / `alltoallv` sequence of `ref_recon_ghost_cloud`, modelled literally)
+  delivers to every GHOST vertex exactly its owner's cloud — needed for the entries of an owned vertex's cloud that
+  are ghosts on its rank.  It is tied: op `cloud1` of stream `reconpar` prints the one-layer cloud of every stored
+  vertex (owned and ghost) of every rank from the real code, compared with the model bit for bit and by the Python
+  oracle with the vertices sharing a cell with it in the global mesh. -/
+
+/-- **the one-layer cloud of an owned vertex does not depend on the partition**: as a list of
+    `(global id, xyz, value)` sorted by global id it is the serial cloud of the global mesh.  `hcomp` is clause (ii)
+    for the cells the k-exact path looks at (tets, or triangles in 2-D) -/
+theorem kexact_one_layer_owned_eq_serial (twod : Bool) (gxyz : List (V3 ℝ)) (gs : List ℝ) (gcells : List Cell)
+    (r : Rank) (me i : Nat) (hnd : r.l2g.Nodup) (hi : i < r.l2g.length) (hown : r.owned me i = true)
+    (hwf : ∀ cell ∈ kxCells twod r.cells, ∀ v ∈ cell, v < r.l2g.length)
+    (hgr : ∀ k, k < r.l2g.length → gOf r.l2g k < gxyz.length)
+    (hcomp : (((kxCells twod r.cells).map (·.map (gOf r.l2g))).filter (·.contains (gOf r.l2g i))).Perm
+      ((kxCells twod gcells).filter (·.contains (gOf r.l2g i)))) :
+    (localClouds twod gxyz me r (r.restrict 0 gs))[i]? =
+      (Refine.Model.Kexact.oneLayer gxyz gs (kxCells twod gcells))[gOf r.l2g i]? :=
+  localCloud_owned_eq_serial twod gxyz gs gcells r me i hnd hi hown hwf hgr hcomp
 
 /-- `ref_recon_grow_cloud_one_layer` asks the cloud table only at the ids in the cloud -/
 theorem grow_partition_independent (layerW layerS : Int → List (Item ℝ)) (c : List (Item ℝ))
@@ -259,5 +277,13 @@ example : Keep exWorld3 (exWorld3.map (replaceMask false 6)) 6 0 1 := by
     | k + 5, hj => simp [exRank0, exRank1] at hj
   subst hj'
   decide
+
+/-- the hypotheses of `kexact_one_layer_owned_eq_serial` hold at the vertex `v1` owned by rank 1 of the example world
+    (stored there under local index 0, both tets around it stored in a shuffled numbering) -/
+example (gxyz : List (V3 ℝ)) (h : gxyz.length = 5) (gs : List ℝ) :
+    (localClouds false gxyz 1 exRank1 (exRank1.restrict 0 gs))[0]? =
+      (Refine.Model.Kexact.oneLayer gxyz gs (kxCells false cCells))[1]? :=
+  kexact_one_layer_owned_eq_serial false gxyz gs cCells exRank1 1 0 (by decide) (by decide) (by decide)
+    (by decide) (by intro k hk; rw [h]; revert k; decide) (by decide)
 
 end Refine.Props.C19Par
